@@ -134,12 +134,17 @@ func (s c31Spec) clientConfig(seed uint64, cache ztls.ClientSessionCache) *ztls.
 func fixedNow() time.Time { return tlspair.Now }
 
 // issue runs a full handshake against zs and returns the session the client cached.
-func (s c31Spec) issue(zs *ztls.Config, seed uint64) (*ztls.ClientSessionState, side, side, error) {
+var errPanicReported = fmt.Errorf("panic (reported)")
+
+func (s c31Spec) issue(c *core.Ctx, zs *ztls.Config, seed uint64) (*ztls.ClientSessionState, side, side, error) {
 	cache := newMapCache()
 	zc := s.clientConfig(seed, cache)
-	r := tlspair.RunZZ(zc, zs, tlspair.Options{})
+	r := tlspair.RunZZ(zc, zs, guarded(tlspair.Options{}))
 	defer r.Close()
 	cs, ss := clientSide(r), serverSide(r)
+	if reportPanics(c, r, "issue:"+s.Name, map[string]any{"session": s, "phase": "initial full handshake"}) {
+		return nil, cs, ss, errPanicReported
+	}
 	if r.TimedOut {
 		return nil, cs, ss, fmt.Errorf("watchdog")
 	}
@@ -147,6 +152,9 @@ func (s c31Spec) issue(zs *ztls.Config, seed uint64) (*ztls.ClientSessionState, 
 		return nil, cs, ss, fmt.Errorf("initial handshake failed: client %v server %v", cs.Err, ss.Err)
 	}
 	if err := r.PingPong([]byte("ping"), []byte("pong")); err != nil {
+		if reportPanics(c, r, "issue:"+s.Name, map[string]any{"session": s, "phase": "first application data"}) {
+			return nil, cs, ss, errPanicReported
+		}
 		return nil, cs, ss, fmt.Errorf("initial ping-pong: %v", err)
 	}
 	sess := cache.only()
@@ -155,6 +163,8 @@ func (s c31Spec) issue(zs *ztls.Config, seed uint64) (*ztls.ClientSessionState, 
 	}
 	return sess, cs, ss, nil
 }
+
+var presentSeq int
 
 type c31Obs struct {
 	Session  string `json:"session"`
@@ -193,9 +203,19 @@ func (b *c31Base) present(c *core.Ctx, zs *ztls.Config, ticket []byte, route str
 		zc.ClientFingerprintConfiguration = &ztls.ClientFingerprintConfiguration{HandshakeVersion: s.Vers, SessionID: sid,
 			CipherSuites: []uint16{s.Suite}, CompressionMethods: []uint8{0}, Extensions: exts}
 	}
-	r := tlspair.RunZZ(zc, zs, tlspair.Options{})
+	input := map[string]any{"session": s, "route": route, "version": vname(s.Vers), "presented_ticket": core.FullHex(ticket)}
+	presentSeq++
+	suppressWatchdogOnce = false
+	caseID := fmt.Sprintf("%s/present#%d", s.Name, presentSeq)
+	c.Begin(caseID, input) // flushed: a fatal error in the stack under test still leaves the ticket on disk
+	defer c.End(caseID)
+	r := tlspair.RunZZ(zc, zs, guarded(tlspair.Options{}))
 	defer r.Close()
 	cs, ss = clientSide(r), serverSide(r)
+	if reportPanics(c, r, caseID, input) {
+		suppressWatchdogOnce = true
+		return cs, ss, false, true
+	}
 	if r.TimedOut {
 		return cs, ss, false, true
 	}
@@ -209,6 +229,10 @@ func (b *c31Base) present(c *core.Ctx, zs *ztls.Config, ticket []byte, route str
 	if cs.OK && ss.OK {
 		// the connection must be usable either way
 		if err := r.PingPong([]byte("data-after"), []byte("ok")); err != nil {
+			if reportPanics(c, r, caseID, input) {
+				suppressWatchdogOnce = true
+				return cs, ss, false, true
+			}
 			c.Violation("application_data_failed_after_ticket_presentation:"+vname(s.Vers), err.Error(), b.Spec.Name, map[string]any{"session": b.Spec, "ticket": core.FullHex(ticket)})
 		}
 	}
@@ -494,9 +518,11 @@ func c31AutoRotation(c *core.Ctx) {
 		own, foreign := mkTicketKey(gr), mkTicketKey(gr)
 		zk := spec.serverConfig(seed+1, fixedNow)
 		zk.SetSessionTicketKeys([][32]byte{own.Key})
-		as, _, ass, err := spec.issue(zk, seed+2)
+		as, _, ass, err := spec.issue(c, zk, seed+2)
 		if err != nil {
-			if err.Error() == "watchdog" {
+			if err == errPanicReported {
+				// already reported as a violation
+			} else if err.Error() == "watchdog" {
 				noteWatchdog(c, "C31 "+label)
 			} else {
 				c.Violation("initial_session_failed:"+spec.Name, err.Error(), label, spec)
@@ -555,9 +581,11 @@ func c31AutoRotation(c *core.Ctx) {
 			hist = append(hist, offset.String())
 			// 1. a genuine full handshake (triggers rotation when due) and a genuine ticket
 			connect()
-			sess, _, ss, err := spec.issue(zs, seed+uint64(100+step))
+			sess, _, ss, err := spec.issue(c, zs, seed+uint64(100+step))
 			if err != nil {
-				if err.Error() == "watchdog" {
+				if err == errPanicReported {
+					// already reported as a violation
+				} else if err.Error() == "watchdog" {
 					noteWatchdog(c, "C31 "+label)
 				} else {
 					c.Violation("initial_session_failed:"+spec.Name, err.Error(), label, hist)
@@ -682,9 +710,11 @@ func c31Mutations(c *core.Ctx, spec c31Spec, rep, si, part int) {
 	fail := func(what string, err error, cs, ss side) {
 		c.Violation("initial_session_failed:"+spec.Name, fmt.Sprintf("%s: %v (client %v, server %v)", what, err, cs.Err, ss.Err), label, spec)
 	}
-	sess, cs, ss, err := spec.issue(zs, seed+10)
+	sess, cs, ss, err := spec.issue(c, zs, seed+10)
 	if err != nil {
-		if err.Error() == "watchdog" {
+		if err == errPanicReported {
+			// already reported as a violation
+		} else if err.Error() == "watchdog" {
 			noteWatchdog(c, "C31 issue "+label)
 			return
 		}
@@ -700,13 +730,13 @@ func c31Mutations(c *core.Ctx, spec c31Spec, rep, si, part int) {
 	if len(explicit) != 1 || explicit[0] != own.Name || !bytesEq16(b.Ticket, explicit) {
 		c.Violation("ticket_not_issued_under_first_current_key", fmt.Sprintf("ticket name %x, server key names %x, expected %x", b.Ticket[:16], explicit, own.Name), label, spec)
 	}
-	sess2, _, _, err2 := spec.issue(zs, seed+11)
+	sess2, _, _, err2 := spec.issue(c, zs, seed+11)
 	var second []byte
 	if err2 == nil {
 		second = ztls.VerifSessionTicket(sess2)
 	}
 	var foreignTicket []byte
-	if fs, _, _, e := spec.issue(zsForeign, seed+12); e == nil {
+	if fs, _, _, e := spec.issue(c, zsForeign, seed+12); e == nil {
 		foreignTicket = ztls.VerifSessionTicket(fs)
 	}
 	// a ticket of the other protocol generation sealed under the same key
@@ -720,7 +750,7 @@ func c31Mutations(c *core.Ctx, spec c31Spec, rep, si, part int) {
 	}
 	zx := cross.serverConfig(seed+3, fixedNow)
 	zx.SetSessionTicketKeys([][32]byte{own.Key})
-	if xs, _, _, e := cross.issue(zx, seed+13); e == nil {
+	if xs, _, _, e := cross.issue(c, zx, seed+13); e == nil {
 		crossTicket = ztls.VerifSessionTicket(xs)
 	}
 
@@ -868,9 +898,11 @@ func c31Histories(c *core.Ctx) {
 				tk.base.judge(c, caseID, "cache", mut, tk.base.Ticket, want, cs, ss, onWire, label, e, ti)
 			}
 			// issue a fresh ticket in this epoch
-			sess, _, ss, err := spec.issue(zs, seed+uint64(7000+e))
+			sess, _, ss, err := spec.issue(c, zs, seed+uint64(7000+e))
 			if err != nil {
-				if err.Error() == "watchdog" {
+				if err == errPanicReported {
+					// already reported as a violation
+				} else if err.Error() == "watchdog" {
 					noteWatchdog(c, "C31 "+label)
 				} else {
 					c.Violation("initial_session_failed:"+spec.Name, err.Error(), label, histDesc)
@@ -909,9 +941,11 @@ func c31Lifetimes(c *core.Ctx) {
 		if !auto {
 			zs.SetSessionTicketKeys([][32]byte{key.Key})
 		}
-		sess, _, ss, err := spec.issue(zs, seed+1)
+		sess, _, ss, err := spec.issue(c, zs, seed+1)
 		if err != nil {
-			if err.Error() == "watchdog" {
+			if err == errPanicReported {
+				// already reported as a violation
+			} else if err.Error() == "watchdog" {
 				noteWatchdog(c, "C31 "+label)
 			} else {
 				c.Violation("initial_session_failed:"+spec.Name, err.Error(), label, spec)
@@ -1003,9 +1037,13 @@ func (b *c31Base) presentTwoSuites(c *core.Ctx, zs *ztls.Config, seed uint64) (c
 	zc.MinVersion, zc.MaxVersion = v12, v12
 	zc.CipherSuites = []uint16{0xc02b, 0xc02c}
 	zc.ClientSessionCache = cache
-	r := tlspair.RunZZ(zc, zs, tlspair.Options{})
+	r := tlspair.RunZZ(zc, zs, guarded(tlspair.Options{}))
 	defer r.Close()
 	cs, ss = clientSide(r), serverSide(r)
+	if reportPanics(c, r, b.Spec.Name+"/two_suites", map[string]any{"session": b.Spec, "presented_ticket": core.FullHex(b.Ticket)}) {
+		suppressWatchdogOnce = true
+		return cs, ss, false, true
+	}
 	if r.TimedOut {
 		return cs, ss, false, true
 	}
